@@ -293,5 +293,6 @@ def run(ctx):
     rule_a(ctx, R)
     rule_b(ctx, R)
     rule_c(ctx, R)
-    from .kernels import run_c16d
+    from .kernels import run_c16d, run_c16e
     run_c16d(ctx)
+    run_c16e(ctx)
